@@ -458,6 +458,29 @@ def rule_leaf_shapes(ctx, rule, m):
     ctx.ob(rule, "key-width", m.keylen == 2, "_unquote_impl looks up item[:%r] instead of the two hex digits" % (m.keylen,), q.site(m.loop))
 
 
+QUOTE_PROBES = ["%zz", "% a", "%41", "a%2Fb c", "%e9", "\u00e9", "a b", "%%41", "%4", "%", "", "a%2", "%C3%A9%", "100%", "%41%zz%2f", "a/b?c=d&e#f", "~._-", "%0a\n", "%2%41", "%%%"]
+
+
+def _safely_quote_cells(repo):
+    """safely_quote, interpreted on one string per piece class {valid escape (either case), malformed escape, lone '%', reserved / unsafe / non-ASCII text, mixtures}:
+    existing %HH escapes are kept as they are, everything else goes through urllib.parse.quote"""
+    def cells():
+        import re as _re
+        from urllib.parse import quote as _quote
+        from ..microeval import run_function, Raised
+        ref = repo.mod("quote").func("safely_quote")
+        out = []
+        for text in QUOTE_PROBES:
+            want = "".join(p if _re.fullmatch("%[0-9A-Fa-f]{2}", p) else _quote(p) for p in _re.split("(%[0-9A-Fa-f]{2})", text))
+            try:
+                got = run_function(repo, ref, [text])
+            except Raised as e:
+                got = "raises " + e.name
+            out.append(("safely_quote(%r) -> %r" % (text, got), got == want))
+        return out
+    return cells
+
+
 def rule_quote_regexes(ctx, rule):
     """safely_quote leaves existing escapes alone and is a no-op on its own output."""
     ctx.rule(rule, "escape-preserving quoting: the splitter's group language is exactly %HH; a piece is yielded verbatim only under a regex test whose language is inside %HH (so everything that is not a valid escape goes through urllib.parse.quote); urllib's emitted escapes %[0-9A-F]{2} are recognised, so safely_quote is a no-op on its own output")
@@ -468,6 +491,7 @@ def rule_quote_regexes(ctx, rule):
     if not isinstance(split_re, Regex):
         raise AnalysisError("quote.QUOTED_SPLIT_RE is not a compiled regex")
     site = q.site(repo.const_node(q, "QUOTED_SPLIT_RE"))
+    qcells = _safely_quote_cells(repo)
     try:
         A = Algebra()
         s = A.regex(split_re.pattern, split_re.flags, "fullmatch", "QUOTED_SPLIT_RE")
@@ -505,7 +529,7 @@ def rule_quote_regexes(ctx, rule):
             if not tests:
                 ctx.ob(rule, "verbatim-only-when-escape", False,
                        "safely_quote_iter yields a piece verbatim under `%s`, which does not check that the piece is a valid %%HH escape: '%%zz' or '%% a' are returned unquoted" % condtxt,
-                       q.site(r.node), witness="%zz")
+                       q.site(r.node), witness="%zz", cells=qcells)
             for g, mode in tests:
                 mod, _, name = g.rpartition(".")
                 try:
@@ -525,11 +549,11 @@ def rule_quote_regexes(ctx, rule):
         elif t[0] == "call" and t[1] == "urllib.parse.quote":
             quoted += 1
             kw = dict(t[3])
-            ctx.ob(rule, "quote-call-default-safe", not kw and len(t[2]) == 1, "safely_quote_iter calls quote with extra arguments (%s)" % P.show(t, maxdepth=3), q.site(r.node))
+            ctx.ob(rule, "quote-call-default-safe", not kw and len(t[2]) == 1, "safely_quote_iter calls quote with extra arguments (%s)" % P.show(t, maxdepth=3), q.site(r.node), cells=qcells)
         else:
-            ctx.ob(rule, "yield-shape/%s" % P.show(t, maxdepth=3), False, "safely_quote_iter yields %s: neither the piece nor urllib.parse.quote(piece)" % P.show(t, maxdepth=4), q.site(r.node))
-    ctx.ob(rule, "verbatim-branch", verbatim >= 1, "safely_quote_iter has no branch keeping existing escapes verbatim", q.site(ref_fn.node))
-    ctx.ob(rule, "quote-branch", quoted >= 1, "safely_quote_iter has no branch passing other pieces through urllib.parse.quote", q.site(ref_fn.node))
+            ctx.ob(rule, "yield-shape/%s" % P.show(t, maxdepth=3), False, "safely_quote_iter yields %s: neither the piece nor urllib.parse.quote(piece)" % P.show(t, maxdepth=4), q.site(r.node), cells=qcells)
+    ctx.ob(rule, "verbatim-branch", verbatim >= 1, "safely_quote_iter has no branch keeping existing escapes verbatim", q.site(ref_fn.node), cells=qcells)
+    ctx.ob(rule, "quote-branch", quoted >= 1, "safely_quote_iter has no branch passing other pieces through urllib.parse.quote", q.site(ref_fn.node), cells=qcells)
     # iteration source is QUOTED_SPLIT_RE.split(string)
     fn = ref_fn.node
     src_ok = False
@@ -540,7 +564,10 @@ def rule_quote_regexes(ctx, rule):
                 src_ok = True
             if isinstance(it, ast.Call) and repo.resolve_call(q, it.func) == "re.split" and isinstance(it.args[0], ast.Name) and it.args[0].id == "QUOTED_SPLIT_RE":
                 src_ok = True
-    ctx.ob(rule, "pieces-from-splitter", src_ok, "safely_quote_iter does not iterate over QUOTED_SPLIT_RE.split(string)", q.site(fn))
+    ctx.ob(rule, "pieces-from-splitter", src_ok, "safely_quote_iter does not iterate over QUOTED_SPLIT_RE.split(string)", q.site(fn), cells=qcells)
+    # the same table, always: what the shapes above are for
+    for desc, ok in qcells():
+        ctx.ob(rule, "table/" + desc.split(" -> ")[0], ok, desc + ": an existing escape is not kept as it is, or other text is not passed through quote", q.site(ref_fn.node), witness=desc.split("(", 1)[1].split(")")[0])
 
 
 def rule_upper_quoted(ctx, rule):
